@@ -49,7 +49,7 @@ def make_schedules(hists, gname, seed, authors=(1, 2)):
             steps.append({"a": "dlv", "r": 9, "u": [i]})
         # closing exchange: every author catches up from observer 8 (diff / full state alternate)
         for j, a in enumerate(authors):
-            steps.append({"a": "sync", "f": 8, "t": a, "how": "diff" if (idx + j) % 2 == 0 else "state", "sv": "own"})
+            steps.append({"a": "sync", "f": 8, "t": a, "how": "diff" if (idx + j) % 2 == 0 else "state", "sv": "own", "closing": True})
         gcs = {a: rnd.random() < 0.7 for a in authors}
         reps = [{"id": a, "gc": gcs[a]} for a in authors] + [{"id": 8, "gc": True}, {"id": 9, "gc": False}]
         cfg = {"replicas": reps, "followers": idx % 3 == 0, "offset": "utf16" if idx % 2 == 0 else "bytes"}
@@ -67,7 +67,7 @@ def nontrivial(sched):
             if len(s["u"]) > 1 or s["u"][0] != last + 1:
                 return True
             seen[s["r"]] = s["u"][0]
-        if s["a"] in ("sync", "relay"):
+        if s["a"] in ("sync", "relay") and not s.get("closing"):
             return True
     return False
 
@@ -178,3 +178,46 @@ def run_design(dname, tier, workdir):
     with open(cpath, "w") as f:
         json.dump(r, f)
     return r
+
+
+# ------------------------------------------------------------------------------------------------
+# plugin interface used by ./check and tools/mkmanifest.py
+
+PREFIXES = {
+    "C01": ["C01_"], "C02": ["C02_"], "C04": ["C04_"], "C05": ["C05_"], "C06": ["C06_"], "C07": ["C07_"], "C15": ["C15_"],
+}
+PROPS = sorted(PREFIXES)
+
+
+def check(prop, tier):
+    ev = vlib.Evidence(prop, tier)
+    bt = vlib.build_harness("yx")
+    wd = os.path.join(vlib.WORK, "run-%s" % prop)
+    plan = TIERS[tier]
+    for d in plan["design"]:
+        r = run_design(d, tier, wd)
+        ev.add_tlc(D_GROUPS[d][1], r, "design")
+    results = []
+    for g in plan["gen"]:
+        r = run_group(g, tier, wd)
+        results.append(r)
+        ev.add_tlc(G_GROUPS[g][1], {"distinct": r["g"]["distinct"], "generated": r["g"]["generated"],
+                                    "depth": r["g"]["depth"], "wall": r["g"]["wall"], "replay": [0] * r["g"]["replay"]}, "G")
+        ev.add_v(g, r["merged"], r["nontrivial"], r["v_wall"])
+        for s in r["samples"]:
+            ev.sample(s)
+    for i in range(plan["random"]):
+        r = run_random(i, tier, wd)
+        results.append(r)
+        ev.add_v(r["group"], r["merged"], r["nontrivial"], r["v_wall"])
+    ev.cov["rule"] = ("behaviours = TLC-enumerated histories (all operation sequences within the bounds of the G "
+                      "configurations x all delivery orders to an observer) plus seeded random schedules, executed on the "
+                      "real library and validated by TLC against Trace_Yata; distinct = distinct step sequences; "
+                      "non-trivial = some update is delivered out of emission order / twice / merged, or a state-vector sync "
+                      "happens before the closing exchange")
+    ev.cov["harness_build_s"] = round(bt, 1)
+    ev.assumptions = ["TLC, CommunityModules", "harness adapters and observation functions (obs.rs, codec.rs)",
+                      "hook H1 (yrs::verif) reports the item lists faithfully"]
+    rc = vlib.report(prop, ev, results, PREFIXES[prop])
+    ev.write()
+    return rc
